@@ -107,6 +107,14 @@ CHECKS["C13"] = dict(
          "file round trips.",
     design="5 C13", technique="Lean 4 proof over a named-column frame model + real file round-trip correspondence")
 
+CHECKS["C01"] = dict(
+    text="Theorems over Mathlib matrices (every position, shift, scale, orthogonal R, every Q): "
+         "sampling-map composition; the true pose of an alignment result (d,Q) is (p + sigma R d, R Q); "
+         "linear_transform as written in the source and _post_align produce exactly that pose; displacement "
+         "in the molecule frame = sigma d; pixel/nm conversion. That the optimiser returns the right (d,Q) is "
+         "C04/C06. scipy Rotation composition rules are parameters, sampled with rational rotations.",
+    design="5 C01", technique="Lean 4 proof (matrix algebra) + executable pose model correspondence")
+
 NOT_YET = {}
 
 
